@@ -68,6 +68,9 @@ class Ctl(object):
                                                  n_tries_range[0] + 1)
         self.timeout = timeouts[t.draw(len(timeouts))]
         self.buffer_size = buffers[t.draw(len(buffers))]
+        if buffers is BUFFERS and t.draw(4) == 0:
+            # any size a little below a power of two
+            self.buffer_size = max(16, (1 << (5 + t.draw(5))) - t.draw(41))
         self.policy = FaultPolicy.draw(t, allowed_faults, self.timeout,
                                        fault_free_one_in,
                                        fifo_requests=fifo_requests)
